@@ -783,7 +783,7 @@ def standin_import_dag(tier, seed):
             for k, (args, cnt) in enumerate(project_invocations(rnd, proj, thorough)):
                 jobs.append((['test'] + args, proj.root))
                 meta.append((proj, args, cnt, k))
-        res = run_many(jobs, 6 if thorough else 4)
+        res = run_many(jobs, 8)
     finally:
         shutil.rmtree(work, ignore_errors=True)
     bound = ('%d fixed + %d seeded projects of 2..5 *_test.ucg files (0..4 own assertions true / false / malformed at run time, or a build error of %d kinds first / middle / last) in which '
